@@ -79,49 +79,49 @@ package parser
 //@   assigns p.curr, p.next, p.lex, fam:G_pos, fam:G_toks
 //@   requires pi: p.curr.Type == tokT(ppos) && p.next.Type == tokT(ppos + 1) && tokOK(p.curr.Type, p.curr.Value) && tokOK(p.next.Type, p.next.Value) && 0 <= p.lex.position && p.lex.position <= len(p.lex.expression) && aligned(p.lex.expression) && boundAt(p.lex.expression, p.lex.position)
 //@   ensures pi: result1 == nil ==> p.curr.Type == tokT(ppos) && p.next.Type == tokT(ppos + 1) && tokOK(p.curr.Type, p.curr.Value) && tokOK(p.next.Type, p.next.Value) && 0 <= p.lex.position && p.lex.position <= len(p.lex.expression) && aligned(p.lex.expression) && boundAt(p.lex.expression, p.lex.position)
-//@   ensures[C09] potential: result1 == nil ==> ppos + pm(len(p.lex.expression), p.lex.position, p.next.Type, p.curr.Type) <= old(ppos + pm(len(p.lex.expression), p.lex.position, p.next.Type, p.curr.Type))
+//@   ensures[C09 C04] potential: result1 == nil ==> ppos + pm(len(p.lex.expression), p.lex.position, p.next.Type, p.curr.Type) <= old(ppos + pm(len(p.lex.expression), p.lex.position, p.next.Type, p.curr.Type))
 //@   measure pm(len(p.lex.expression), p.lex.position, p.next.Type, p.curr.Type)
 //@   rank 12
 //@   ensures[C04] close: result1 == nil ==> tokT(ppos - 1) == const("lexer.CloseSqBraceToken") && ppos > old(ppos) + 1 && result0 != nil
 
 //@ func parser.expression
-//@   tags C10 C04 C09
+//@   tags C10 C04 C09 C01 C17
 //@   linear
 //@   assigns p.curr, p.next, p.lex, fam:G_pos, fam:G_toks
 //@   requires pi: p.curr.Type == tokT(ppos) && p.next.Type == tokT(ppos + 1) && tokOK(p.curr.Type, p.curr.Value) && tokOK(p.next.Type, p.next.Value) && 0 <= p.lex.position && p.lex.position <= len(p.lex.expression) && aligned(p.lex.expression) && boundAt(p.lex.expression, p.lex.position)
 //@   ensures pi: result1 == nil ==> p.curr.Type == tokT(ppos) && p.next.Type == tokT(ppos + 1) && tokOK(p.curr.Type, p.curr.Value) && tokOK(p.next.Type, p.next.Value) && 0 <= p.lex.position && p.lex.position <= len(p.lex.expression) && aligned(p.lex.expression) && boundAt(p.lex.expression, p.lex.position)
-//@   ensures[C09] potential: result1 == nil ==> ppos + pm(len(p.lex.expression), p.lex.position, p.next.Type, p.curr.Type) <= old(ppos + pm(len(p.lex.expression), p.lex.position, p.next.Type, p.curr.Type))
+//@   ensures[C09 C01 C10 C17] potential: result1 == nil ==> ppos + pm(len(p.lex.expression), p.lex.position, p.next.Type, p.curr.Type) <= old(ppos + pm(len(p.lex.expression), p.lex.position, p.next.Type, p.curr.Type))
 //@   measure pm(len(p.lex.expression), p.lex.position, p.next.Type, p.curr.Type)
 //@   rank 10
-//@   ensures[C09] progress: result1 == nil ==> ppos > old(ppos) && result0 != nil
-//@   ensures[C10] stop: result1 == nil ==> precOf(p.curr.Type) <= prec || !infixTok(p.curr.Type)
-//@   at advance#* assert[C10] tighter: precOf(p.curr.Type) > prec
-//@   at advance2#* assert[C10] tighter: precOf(p.curr.Type) > prec
-//@   at expression#* assert[C10] leftassoc: arg1 == precOf(tokT(ppos - 1))
+//@   ensures[C09 C01 C10 C17] progress: result1 == nil ==> ppos > old(ppos) && result0 != nil
+//@   ensures[C10 C01 C09 C17] stop: result1 == nil ==> precOf(p.curr.Type) <= prec || !infixTok(p.curr.Type)
+//@   at advance#* assert[C10 C01 C09 C17] tighter: precOf(p.curr.Type) > prec
+//@   at advance2#* assert[C10 C01 C09 C17] tighter: precOf(p.curr.Type) > prec
+//@   at expression#* assert[C10 C01 C09 C17] leftassoc: arg1 == precOf(tokT(ppos - 1))
 // C01: a projection's right-hand side extends over the selectors that follow (every selector token binds tighter than the
 // binding power handed to parser.projection); the slice sites (#5) re-project each following selector instead
-//@   at projection#1 assert[C01 C17] extends.dot: precOf(const("lexer.DotToken")) > arg1
-//@   at projection#1 assert[C01 C17] extends.bracket: precOf(const("lexer.OpenSqBraceToken")) > arg1
-//@   at projection#1 assert[C01 C17] extends.filter: precOf(const("lexer.FilterToken")) > arg1
-//@   at projection#1 assert[C01 C17] extends.objwild: precOf(const("lexer.ObjectWildcardToken")) > arg1
-//@   at projection#1 assert[C01 C17] extends.arraywild: precOf(const("lexer.ArrayWildcardToken")) > arg1
-//@   at projection#2 assert[C01 C17] extends.dot: precOf(const("lexer.DotToken")) > arg1
-//@   at projection#2 assert[C01 C17] extends.bracket: precOf(const("lexer.OpenSqBraceToken")) > arg1
-//@   at projection#2 assert[C01 C17] extends.filter: precOf(const("lexer.FilterToken")) > arg1
-//@   at projection#2 assert[C01 C17] extends.objwild: precOf(const("lexer.ObjectWildcardToken")) > arg1
-//@   at projection#2 assert[C01 C17] extends.arraywild: precOf(const("lexer.ArrayWildcardToken")) > arg1
-//@   at projection#3 assert[C01 C17] extends.dot: precOf(const("lexer.DotToken")) > arg1
-//@   at projection#3 assert[C01 C17] extends.bracket: precOf(const("lexer.OpenSqBraceToken")) > arg1
-//@   at projection#3 assert[C01 C17] extends.filter: precOf(const("lexer.FilterToken")) > arg1
-//@   at projection#3 assert[C01 C17] extends.objwild: precOf(const("lexer.ObjectWildcardToken")) > arg1
-//@   at projection#3 assert[C01 C17] extends.arraywild: precOf(const("lexer.ArrayWildcardToken")) > arg1
-//@   at projection#4 assert[C01 C17] extends.dot: precOf(const("lexer.DotToken")) > arg1
-//@   at projection#4 assert[C01 C17] extends.bracket: precOf(const("lexer.OpenSqBraceToken")) > arg1
-//@   at projection#4 assert[C01 C17] extends.filter: precOf(const("lexer.FilterToken")) > arg1
-//@   at projection#4 assert[C01 C17] extends.objwild: precOf(const("lexer.ObjectWildcardToken")) > arg1
-//@   at projection#4 assert[C01 C17] extends.arraywild: precOf(const("lexer.ArrayWildcardToken")) > arg1
+//@   at projection#1 assert[C01 C17 C09 C10] extends.dot: precOf(const("lexer.DotToken")) > arg1
+//@   at projection#1 assert[C01 C17 C09 C10] extends.bracket: precOf(const("lexer.OpenSqBraceToken")) > arg1
+//@   at projection#1 assert[C01 C17 C09 C10] extends.filter: precOf(const("lexer.FilterToken")) > arg1
+//@   at projection#1 assert[C01 C17 C09 C10] extends.objwild: precOf(const("lexer.ObjectWildcardToken")) > arg1
+//@   at projection#1 assert[C01 C17 C09 C10] extends.arraywild: precOf(const("lexer.ArrayWildcardToken")) > arg1
+//@   at projection#2 assert[C01 C17 C09 C10] extends.dot: precOf(const("lexer.DotToken")) > arg1
+//@   at projection#2 assert[C01 C17 C09 C10] extends.bracket: precOf(const("lexer.OpenSqBraceToken")) > arg1
+//@   at projection#2 assert[C01 C17 C09 C10] extends.filter: precOf(const("lexer.FilterToken")) > arg1
+//@   at projection#2 assert[C01 C17 C09 C10] extends.objwild: precOf(const("lexer.ObjectWildcardToken")) > arg1
+//@   at projection#2 assert[C01 C17 C09 C10] extends.arraywild: precOf(const("lexer.ArrayWildcardToken")) > arg1
+//@   at projection#3 assert[C01 C17 C09 C10] extends.dot: precOf(const("lexer.DotToken")) > arg1
+//@   at projection#3 assert[C01 C17 C09 C10] extends.bracket: precOf(const("lexer.OpenSqBraceToken")) > arg1
+//@   at projection#3 assert[C01 C17 C09 C10] extends.filter: precOf(const("lexer.FilterToken")) > arg1
+//@   at projection#3 assert[C01 C17 C09 C10] extends.objwild: precOf(const("lexer.ObjectWildcardToken")) > arg1
+//@   at projection#3 assert[C01 C17 C09 C10] extends.arraywild: precOf(const("lexer.ArrayWildcardToken")) > arg1
+//@   at projection#4 assert[C01 C17 C09 C10] extends.dot: precOf(const("lexer.DotToken")) > arg1
+//@   at projection#4 assert[C01 C17 C09 C10] extends.bracket: precOf(const("lexer.OpenSqBraceToken")) > arg1
+//@   at projection#4 assert[C01 C17 C09 C10] extends.filter: precOf(const("lexer.FilterToken")) > arg1
+//@   at projection#4 assert[C01 C17 C09 C10] extends.objwild: precOf(const("lexer.ObjectWildcardToken")) > arg1
+//@   at projection#4 assert[C01 C17 C09 C10] extends.arraywild: precOf(const("lexer.ArrayWildcardToken")) > arg1
 //@   loop 1
-//@     invariant[C09] potential: ppos + pm(len(p.lex.expression), p.lex.position, p.next.Type, p.curr.Type) <= old(ppos + pm(len(p.lex.expression), p.lex.position, p.next.Type, p.curr.Type))
+//@     invariant[C09 C01 C10 C17] potential: ppos + pm(len(p.lex.expression), p.lex.position, p.next.Type, p.curr.Type) <= old(ppos + pm(len(p.lex.expression), p.lex.position, p.next.Type, p.curr.Type))
 //@     decreases pm(len(p.lex.expression), p.lex.position, p.next.Type, p.curr.Type)
 //@     invariant p.curr.Type == tokT(ppos) && p.next.Type == tokT(ppos + 1)
 //@     invariant tokOK(p.curr.Type, p.curr.Value) && tokOK(p.next.Type, p.next.Value)
@@ -129,7 +129,7 @@ package parser
 //@     invariant ppos > old(ppos)
 //@     invariant newPrec == precOf(p.curr.Type)
 //@     invariant node != nil
-//@     invariant[C04 C01 C17] linear: pendingOnly(node)
+//@     invariant[C04 C01 C17 C09 C10] linear: pendingOnly(node)
 
 //@ func parser.primaryExpression
 //@   tags C10 C04 C09
@@ -137,32 +137,32 @@ package parser
 //@   assigns p.curr, p.next, p.lex, fam:G_pos, fam:G_toks
 //@   requires pi: p.curr.Type == tokT(ppos) && p.next.Type == tokT(ppos + 1) && tokOK(p.curr.Type, p.curr.Value) && tokOK(p.next.Type, p.next.Value) && 0 <= p.lex.position && p.lex.position <= len(p.lex.expression) && aligned(p.lex.expression) && boundAt(p.lex.expression, p.lex.position)
 //@   ensures pi: result1 == nil ==> p.curr.Type == tokT(ppos) && p.next.Type == tokT(ppos + 1) && tokOK(p.curr.Type, p.curr.Value) && tokOK(p.next.Type, p.next.Value) && 0 <= p.lex.position && p.lex.position <= len(p.lex.expression) && aligned(p.lex.expression) && boundAt(p.lex.expression, p.lex.position)
-//@   ensures[C09] potential: result1 == nil ==> ppos + pm(len(p.lex.expression), p.lex.position, p.next.Type, p.curr.Type) <= old(ppos + pm(len(p.lex.expression), p.lex.position, p.next.Type, p.curr.Type))
+//@   ensures[C09 C04 C10] potential: result1 == nil ==> ppos + pm(len(p.lex.expression), p.lex.position, p.next.Type, p.curr.Type) <= old(ppos + pm(len(p.lex.expression), p.lex.position, p.next.Type, p.curr.Type))
 //@   measure pm(len(p.lex.expression), p.lex.position, p.next.Type, p.curr.Type)
 //@   rank 5
-//@   ensures[C09] progress: result1 == nil ==> ppos > old(ppos) && result0 != nil
-//@   at expression#* assert[C10] prefix: arg1 == 1 || arg1 >= precOf(const("lexer.MultiplyToken"))
-//@   at projection#1 assert[C01 C17] extends.dot: precOf(const("lexer.DotToken")) > arg1
-//@   at projection#1 assert[C01 C17] extends.bracket: precOf(const("lexer.OpenSqBraceToken")) > arg1
-//@   at projection#1 assert[C01 C17] extends.filter: precOf(const("lexer.FilterToken")) > arg1
-//@   at projection#1 assert[C01 C17] extends.objwild: precOf(const("lexer.ObjectWildcardToken")) > arg1
-//@   at projection#1 assert[C01 C17] extends.arraywild: precOf(const("lexer.ArrayWildcardToken")) > arg1
-//@   at projection#2 assert[C01 C17] extends.dot: precOf(const("lexer.DotToken")) > arg1
-//@   at projection#2 assert[C01 C17] extends.bracket: precOf(const("lexer.OpenSqBraceToken")) > arg1
-//@   at projection#2 assert[C01 C17] extends.filter: precOf(const("lexer.FilterToken")) > arg1
-//@   at projection#2 assert[C01 C17] extends.objwild: precOf(const("lexer.ObjectWildcardToken")) > arg1
-//@   at projection#2 assert[C01 C17] extends.arraywild: precOf(const("lexer.ArrayWildcardToken")) > arg1
-//@   at projection#3 assert[C01 C17] extends.dot: precOf(const("lexer.DotToken")) > arg1
-//@   at projection#3 assert[C01 C17] extends.bracket: precOf(const("lexer.OpenSqBraceToken")) > arg1
-//@   at projection#3 assert[C01 C17] extends.filter: precOf(const("lexer.FilterToken")) > arg1
-//@   at projection#3 assert[C01 C17] extends.objwild: precOf(const("lexer.ObjectWildcardToken")) > arg1
-//@   at projection#3 assert[C01 C17] extends.arraywild: precOf(const("lexer.ArrayWildcardToken")) > arg1
-//@   at projection#4 assert[C01 C17] extends.dot: precOf(const("lexer.DotToken")) > arg1
-//@   at projection#4 assert[C01 C17] extends.bracket: precOf(const("lexer.OpenSqBraceToken")) > arg1
-//@   at projection#4 assert[C01 C17] extends.filter: precOf(const("lexer.FilterToken")) > arg1
-//@   at projection#4 assert[C01 C17] extends.objwild: precOf(const("lexer.ObjectWildcardToken")) > arg1
-//@   at projection#4 assert[C01 C17] extends.arraywild: precOf(const("lexer.ArrayWildcardToken")) > arg1
-//@   ensures[C17 C01] paren.ends: old(p.curr.Type) == const("lexer.OpenParenToken") && result1 == nil ==> !isProj(result0)
+//@   ensures[C09 C04 C10] progress: result1 == nil ==> ppos > old(ppos) && result0 != nil
+//@   at expression#* assert[C10 C04 C09] prefix: arg1 == 1 || arg1 >= precOf(const("lexer.MultiplyToken"))
+//@   at projection#1 assert[C01 C17 C04 C09 C10] extends.dot: precOf(const("lexer.DotToken")) > arg1
+//@   at projection#1 assert[C01 C17 C04 C09 C10] extends.bracket: precOf(const("lexer.OpenSqBraceToken")) > arg1
+//@   at projection#1 assert[C01 C17 C04 C09 C10] extends.filter: precOf(const("lexer.FilterToken")) > arg1
+//@   at projection#1 assert[C01 C17 C04 C09 C10] extends.objwild: precOf(const("lexer.ObjectWildcardToken")) > arg1
+//@   at projection#1 assert[C01 C17 C04 C09 C10] extends.arraywild: precOf(const("lexer.ArrayWildcardToken")) > arg1
+//@   at projection#2 assert[C01 C17 C04 C09 C10] extends.dot: precOf(const("lexer.DotToken")) > arg1
+//@   at projection#2 assert[C01 C17 C04 C09 C10] extends.bracket: precOf(const("lexer.OpenSqBraceToken")) > arg1
+//@   at projection#2 assert[C01 C17 C04 C09 C10] extends.filter: precOf(const("lexer.FilterToken")) > arg1
+//@   at projection#2 assert[C01 C17 C04 C09 C10] extends.objwild: precOf(const("lexer.ObjectWildcardToken")) > arg1
+//@   at projection#2 assert[C01 C17 C04 C09 C10] extends.arraywild: precOf(const("lexer.ArrayWildcardToken")) > arg1
+//@   at projection#3 assert[C01 C17 C04 C09 C10] extends.dot: precOf(const("lexer.DotToken")) > arg1
+//@   at projection#3 assert[C01 C17 C04 C09 C10] extends.bracket: precOf(const("lexer.OpenSqBraceToken")) > arg1
+//@   at projection#3 assert[C01 C17 C04 C09 C10] extends.filter: precOf(const("lexer.FilterToken")) > arg1
+//@   at projection#3 assert[C01 C17 C04 C09 C10] extends.objwild: precOf(const("lexer.ObjectWildcardToken")) > arg1
+//@   at projection#3 assert[C01 C17 C04 C09 C10] extends.arraywild: precOf(const("lexer.ArrayWildcardToken")) > arg1
+//@   at projection#4 assert[C01 C17 C04 C09 C10] extends.dot: precOf(const("lexer.DotToken")) > arg1
+//@   at projection#4 assert[C01 C17 C04 C09 C10] extends.bracket: precOf(const("lexer.OpenSqBraceToken")) > arg1
+//@   at projection#4 assert[C01 C17 C04 C09 C10] extends.filter: precOf(const("lexer.FilterToken")) > arg1
+//@   at projection#4 assert[C01 C17 C04 C09 C10] extends.objwild: precOf(const("lexer.ObjectWildcardToken")) > arg1
+//@   at projection#4 assert[C01 C17 C04 C09 C10] extends.arraywild: precOf(const("lexer.ArrayWildcardToken")) > arg1
+//@   ensures[C17 C01 C04 C09 C10] paren.ends: old(p.curr.Type) == const("lexer.OpenParenToken") && result1 == nil ==> !isProj(result0)
 
 //@ func parser.projection
 //@   tags C04 C09 C01
@@ -171,46 +171,46 @@ package parser
 //@   assigns p.curr, p.next, p.lex, fam:G_pos, fam:G_toks
 //@   requires pi: p.curr.Type == tokT(ppos) && p.next.Type == tokT(ppos + 1) && tokOK(p.curr.Type, p.curr.Value) && tokOK(p.next.Type, p.next.Value) && 0 <= p.lex.position && p.lex.position <= len(p.lex.expression) && aligned(p.lex.expression) && boundAt(p.lex.expression, p.lex.position)
 //@   ensures pi: result1 == nil ==> p.curr.Type == tokT(ppos) && p.next.Type == tokT(ppos + 1) && tokOK(p.curr.Type, p.curr.Value) && tokOK(p.next.Type, p.next.Value) && 0 <= p.lex.position && p.lex.position <= len(p.lex.expression) && aligned(p.lex.expression) && boundAt(p.lex.expression, p.lex.position)
-//@   ensures[C09] potential: result1 == nil ==> ppos + pm(len(p.lex.expression), p.lex.position, p.next.Type, p.curr.Type) <= old(ppos + pm(len(p.lex.expression), p.lex.position, p.next.Type, p.curr.Type))
+//@   ensures[C09 C01] potential: result1 == nil ==> ppos + pm(len(p.lex.expression), p.lex.position, p.next.Type, p.curr.Type) <= old(ppos + pm(len(p.lex.expression), p.lex.position, p.next.Type, p.curr.Type))
 //@   measure pm(len(p.lex.expression), p.lex.position, p.next.Type, p.curr.Type)
 //@   rank 11
-//@   ensures[C09] progress: result1 == nil && result0 != nil ==> ppos > old(ppos)
+//@   ensures[C09 C01] progress: result1 == nil && result0 != nil ==> ppos > old(ppos)
 //@   ensures none: result1 == nil && result0 == nil ==> ppos == old(ppos) && toks() == old(toks())
-//@   ensures[C01 C17] rhs.absent: result1 == nil && result0 == nil ==> !selectorTok(tokT(ppos))
+//@   ensures[C01 C17 C09] rhs.absent: result1 == nil && result0 == nil ==> !selectorTok(tokT(ppos))
 //@   loop 1
-//@     invariant[C09] potential: ppos + pm(len(p.lex.expression), p.lex.position, p.next.Type, p.curr.Type) <= old(ppos + pm(len(p.lex.expression), p.lex.position, p.next.Type, p.curr.Type))
+//@     invariant[C09 C01] potential: ppos + pm(len(p.lex.expression), p.lex.position, p.next.Type, p.curr.Type) <= old(ppos + pm(len(p.lex.expression), p.lex.position, p.next.Type, p.curr.Type))
 //@     decreases pm(len(p.lex.expression), p.lex.position, p.next.Type, p.curr.Type)
 //@     invariant p.curr.Type == tokT(ppos) && p.next.Type == tokT(ppos + 1)
 //@     invariant tokOK(p.curr.Type, p.curr.Value) && tokOK(p.next.Type, p.next.Value)
 //@     invariant 0 <= p.lex.position && p.lex.position <= len(p.lex.expression) && aligned(p.lex.expression) && boundAt(p.lex.expression, p.lex.position)
 //@     invariant ppos > old(ppos) && newPrec == precOf(p.curr.Type) && node != nil
-//@     invariant[C04 C01 C17] linear: pendingOnly(node)
+//@     invariant[C04 C01 C17 C09] linear: pendingOnly(node)
 
 //@ func parser.index
-//@   tags C04 C09 C12
+//@   tags C04 C09 C12 C01
 //@   linear
 //@   assigns p.curr, p.next, p.lex, fam:G_pos, fam:G_toks
 //@   requires pi: p.curr.Type == tokT(ppos) && p.next.Type == tokT(ppos + 1) && tokOK(p.curr.Type, p.curr.Value) && tokOK(p.next.Type, p.next.Value) && 0 <= p.lex.position && p.lex.position <= len(p.lex.expression) && aligned(p.lex.expression) && boundAt(p.lex.expression, p.lex.position)
 //@   ensures pi: result2 == nil ==> p.curr.Type == tokT(ppos) && p.next.Type == tokT(ppos + 1) && tokOK(p.curr.Type, p.curr.Value) && tokOK(p.next.Type, p.next.Value) && 0 <= p.lex.position && p.lex.position <= len(p.lex.expression) && aligned(p.lex.expression) && boundAt(p.lex.expression, p.lex.position)
-//@   ensures[C09] potential: result2 == nil ==> ppos + pm(len(p.lex.expression), p.lex.position, p.next.Type, p.curr.Type) <= old(ppos + pm(len(p.lex.expression), p.lex.position, p.next.Type, p.curr.Type))
+//@   ensures[C09 C01 C04 C12] potential: result2 == nil ==> ppos + pm(len(p.lex.expression), p.lex.position, p.next.Type, p.curr.Type) <= old(ppos + pm(len(p.lex.expression), p.lex.position, p.next.Type, p.curr.Type))
 //@   measure pm(len(p.lex.expression), p.lex.position, p.next.Type, p.curr.Type)
 //@   rank 12
-//@   ensures[C04] close: result2 == nil ==> tokT(ppos - 1) == const("lexer.CloseSqBraceToken") && ppos > old(ppos) && result0 != nil
-//@   ensures[C12] start.given.SliceNode: result2 == nil && isType(result0, "*github.com/woodsbury/jmespath/internal/parser.SliceNode") && old(p.curr.Type) == const("lexer.IntegerLiteralToken") ==> as(result0, "parser.SliceNode").Start == atoiVal(old(p.curr.Value))
-//@   ensures[C12] start.absent.SliceNode: result2 == nil && isType(result0, "*github.com/woodsbury/jmespath/internal/parser.SliceNode") && old(p.curr.Type) == const("lexer.ColonToken") ==> as(result0, "parser.SliceNode").Start == ite(1 < 0, 9223372036854775807, 0)
-//@   ensures[C12] stop.absent.SliceNode: result2 == nil && isType(result0, "*github.com/woodsbury/jmespath/internal/parser.SliceNode") && tokT(old(ppos) + ite(old(p.curr.Type) == const("lexer.ColonToken"), 1, 2)) != const("lexer.IntegerLiteralToken") ==> as(result0, "parser.SliceNode").Stop == ite(1 < 0, 0 - 9223372036854775808, 9223372036854775807)
-//@   ensures[C12] start.given.SliceCurrentNode: result2 == nil && isType(result0, "*github.com/woodsbury/jmespath/internal/parser.SliceCurrentNode") && old(p.curr.Type) == const("lexer.IntegerLiteralToken") ==> as(result0, "parser.SliceCurrentNode").Start == atoiVal(old(p.curr.Value))
-//@   ensures[C12] start.absent.SliceCurrentNode: result2 == nil && isType(result0, "*github.com/woodsbury/jmespath/internal/parser.SliceCurrentNode") && old(p.curr.Type) == const("lexer.ColonToken") ==> as(result0, "parser.SliceCurrentNode").Start == ite(1 < 0, 9223372036854775807, 0)
-//@   ensures[C12] stop.absent.SliceCurrentNode: result2 == nil && isType(result0, "*github.com/woodsbury/jmespath/internal/parser.SliceCurrentNode") && tokT(old(ppos) + ite(old(p.curr.Type) == const("lexer.ColonToken"), 1, 2)) != const("lexer.IntegerLiteralToken") ==> as(result0, "parser.SliceCurrentNode").Stop == ite(1 < 0, 0 - 9223372036854775808, 9223372036854775807)
-//@   ensures[C12] start.given.SliceStepNode: result2 == nil && isType(result0, "*github.com/woodsbury/jmespath/internal/parser.SliceStepNode") && old(p.curr.Type) == const("lexer.IntegerLiteralToken") ==> as(result0, "parser.SliceStepNode").Start == atoiVal(old(p.curr.Value))
-//@   ensures[C12] start.absent.SliceStepNode: result2 == nil && isType(result0, "*github.com/woodsbury/jmespath/internal/parser.SliceStepNode") && old(p.curr.Type) == const("lexer.ColonToken") ==> as(result0, "parser.SliceStepNode").Start == ite(as(result0, "parser.SliceStepNode").Step < 0, 9223372036854775807, 0)
-//@   ensures[C12] stop.absent.SliceStepNode: result2 == nil && isType(result0, "*github.com/woodsbury/jmespath/internal/parser.SliceStepNode") && tokT(old(ppos) + ite(old(p.curr.Type) == const("lexer.ColonToken"), 1, 2)) != const("lexer.IntegerLiteralToken") ==> as(result0, "parser.SliceStepNode").Stop == ite(as(result0, "parser.SliceStepNode").Step < 0, 0 - 9223372036854775808, 9223372036854775807)
-//@   ensures[C12] start.given.SliceStepCurrentNode: result2 == nil && isType(result0, "*github.com/woodsbury/jmespath/internal/parser.SliceStepCurrentNode") && old(p.curr.Type) == const("lexer.IntegerLiteralToken") ==> as(result0, "parser.SliceStepCurrentNode").Start == atoiVal(old(p.curr.Value))
-//@   ensures[C12] start.absent.SliceStepCurrentNode: result2 == nil && isType(result0, "*github.com/woodsbury/jmespath/internal/parser.SliceStepCurrentNode") && old(p.curr.Type) == const("lexer.ColonToken") ==> as(result0, "parser.SliceStepCurrentNode").Start == ite(as(result0, "parser.SliceStepCurrentNode").Step < 0, 9223372036854775807, 0)
-//@   ensures[C12] stop.absent.SliceStepCurrentNode: result2 == nil && isType(result0, "*github.com/woodsbury/jmespath/internal/parser.SliceStepCurrentNode") && tokT(old(ppos) + ite(old(p.curr.Type) == const("lexer.ColonToken"), 1, 2)) != const("lexer.IntegerLiteralToken") ==> as(result0, "parser.SliceStepCurrentNode").Stop == ite(as(result0, "parser.SliceStepCurrentNode").Step < 0, 0 - 9223372036854775808, 9223372036854775807)
-//@   ensures[C12 C01] index.value.IndexNode: result2 == nil && isType(result0, "*github.com/woodsbury/jmespath/internal/parser.IndexNode") ==> as(result0, "parser.IndexNode").Value == atoiVal(old(p.curr.Value)) && old(p.curr.Type) == const("lexer.IntegerLiteralToken")
-//@   ensures[C12 C01] index.value.IndexCurrentNode: result2 == nil && isType(result0, "*github.com/woodsbury/jmespath/internal/parser.IndexCurrentNode") ==> as(result0, "parser.IndexCurrentNode").Value == atoiVal(old(p.curr.Value)) && old(p.curr.Type) == const("lexer.IntegerLiteralToken")
-//@   ensures[C12] projects: result2 == nil ==> result1 == (isType(result0, "*github.com/woodsbury/jmespath/internal/parser.SliceNode") || isType(result0, "*github.com/woodsbury/jmespath/internal/parser.SliceCurrentNode") || isType(result0, "*github.com/woodsbury/jmespath/internal/parser.SliceStepNode") || isType(result0, "*github.com/woodsbury/jmespath/internal/parser.SliceStepCurrentNode"))
+//@   ensures[C04 C01 C12] close: result2 == nil ==> tokT(ppos - 1) == const("lexer.CloseSqBraceToken") && ppos > old(ppos) && result0 != nil
+//@   ensures[C12 C01 C04] start.given.SliceNode: result2 == nil && isType(result0, "*github.com/woodsbury/jmespath/internal/parser.SliceNode") && old(p.curr.Type) == const("lexer.IntegerLiteralToken") ==> as(result0, "parser.SliceNode").Start == atoiVal(old(p.curr.Value))
+//@   ensures[C12 C01 C04] start.absent.SliceNode: result2 == nil && isType(result0, "*github.com/woodsbury/jmespath/internal/parser.SliceNode") && old(p.curr.Type) == const("lexer.ColonToken") ==> as(result0, "parser.SliceNode").Start == ite(1 < 0, 9223372036854775807, 0)
+//@   ensures[C12 C01 C04] stop.absent.SliceNode: result2 == nil && isType(result0, "*github.com/woodsbury/jmespath/internal/parser.SliceNode") && tokT(old(ppos) + ite(old(p.curr.Type) == const("lexer.ColonToken"), 1, 2)) != const("lexer.IntegerLiteralToken") ==> as(result0, "parser.SliceNode").Stop == ite(1 < 0, 0 - 9223372036854775808, 9223372036854775807)
+//@   ensures[C12 C01 C04] start.given.SliceCurrentNode: result2 == nil && isType(result0, "*github.com/woodsbury/jmespath/internal/parser.SliceCurrentNode") && old(p.curr.Type) == const("lexer.IntegerLiteralToken") ==> as(result0, "parser.SliceCurrentNode").Start == atoiVal(old(p.curr.Value))
+//@   ensures[C12 C01 C04] start.absent.SliceCurrentNode: result2 == nil && isType(result0, "*github.com/woodsbury/jmespath/internal/parser.SliceCurrentNode") && old(p.curr.Type) == const("lexer.ColonToken") ==> as(result0, "parser.SliceCurrentNode").Start == ite(1 < 0, 9223372036854775807, 0)
+//@   ensures[C12 C01 C04] stop.absent.SliceCurrentNode: result2 == nil && isType(result0, "*github.com/woodsbury/jmespath/internal/parser.SliceCurrentNode") && tokT(old(ppos) + ite(old(p.curr.Type) == const("lexer.ColonToken"), 1, 2)) != const("lexer.IntegerLiteralToken") ==> as(result0, "parser.SliceCurrentNode").Stop == ite(1 < 0, 0 - 9223372036854775808, 9223372036854775807)
+//@   ensures[C12 C01 C04] start.given.SliceStepNode: result2 == nil && isType(result0, "*github.com/woodsbury/jmespath/internal/parser.SliceStepNode") && old(p.curr.Type) == const("lexer.IntegerLiteralToken") ==> as(result0, "parser.SliceStepNode").Start == atoiVal(old(p.curr.Value))
+//@   ensures[C12 C01 C04] start.absent.SliceStepNode: result2 == nil && isType(result0, "*github.com/woodsbury/jmespath/internal/parser.SliceStepNode") && old(p.curr.Type) == const("lexer.ColonToken") ==> as(result0, "parser.SliceStepNode").Start == ite(as(result0, "parser.SliceStepNode").Step < 0, 9223372036854775807, 0)
+//@   ensures[C12 C01 C04] stop.absent.SliceStepNode: result2 == nil && isType(result0, "*github.com/woodsbury/jmespath/internal/parser.SliceStepNode") && tokT(old(ppos) + ite(old(p.curr.Type) == const("lexer.ColonToken"), 1, 2)) != const("lexer.IntegerLiteralToken") ==> as(result0, "parser.SliceStepNode").Stop == ite(as(result0, "parser.SliceStepNode").Step < 0, 0 - 9223372036854775808, 9223372036854775807)
+//@   ensures[C12 C01 C04] start.given.SliceStepCurrentNode: result2 == nil && isType(result0, "*github.com/woodsbury/jmespath/internal/parser.SliceStepCurrentNode") && old(p.curr.Type) == const("lexer.IntegerLiteralToken") ==> as(result0, "parser.SliceStepCurrentNode").Start == atoiVal(old(p.curr.Value))
+//@   ensures[C12 C01 C04] start.absent.SliceStepCurrentNode: result2 == nil && isType(result0, "*github.com/woodsbury/jmespath/internal/parser.SliceStepCurrentNode") && old(p.curr.Type) == const("lexer.ColonToken") ==> as(result0, "parser.SliceStepCurrentNode").Start == ite(as(result0, "parser.SliceStepCurrentNode").Step < 0, 9223372036854775807, 0)
+//@   ensures[C12 C01 C04] stop.absent.SliceStepCurrentNode: result2 == nil && isType(result0, "*github.com/woodsbury/jmespath/internal/parser.SliceStepCurrentNode") && tokT(old(ppos) + ite(old(p.curr.Type) == const("lexer.ColonToken"), 1, 2)) != const("lexer.IntegerLiteralToken") ==> as(result0, "parser.SliceStepCurrentNode").Stop == ite(as(result0, "parser.SliceStepCurrentNode").Step < 0, 0 - 9223372036854775808, 9223372036854775807)
+//@   ensures[C12 C01 C04] index.value.IndexNode: result2 == nil && isType(result0, "*github.com/woodsbury/jmespath/internal/parser.IndexNode") ==> as(result0, "parser.IndexNode").Value == atoiVal(old(p.curr.Value)) && old(p.curr.Type) == const("lexer.IntegerLiteralToken")
+//@   ensures[C12 C01 C04] index.value.IndexCurrentNode: result2 == nil && isType(result0, "*github.com/woodsbury/jmespath/internal/parser.IndexCurrentNode") ==> as(result0, "parser.IndexCurrentNode").Value == atoiVal(old(p.curr.Value)) && old(p.curr.Type) == const("lexer.IntegerLiteralToken")
+//@   ensures[C12 C01 C04] projects: result2 == nil ==> result1 == (isType(result0, "*github.com/woodsbury/jmespath/internal/parser.SliceNode") || isType(result0, "*github.com/woodsbury/jmespath/internal/parser.SliceCurrentNode") || isType(result0, "*github.com/woodsbury/jmespath/internal/parser.SliceStepNode") || isType(result0, "*github.com/woodsbury/jmespath/internal/parser.SliceStepCurrentNode"))
 
 //@ func parser.selectArray
 //@   tags C04 C09
@@ -218,12 +218,12 @@ package parser
 //@   assigns p.curr, p.next, p.lex, fam:G_pos, fam:G_toks
 //@   requires pi: p.curr.Type == tokT(ppos) && p.next.Type == tokT(ppos + 1) && tokOK(p.curr.Type, p.curr.Value) && tokOK(p.next.Type, p.next.Value) && 0 <= p.lex.position && p.lex.position <= len(p.lex.expression) && aligned(p.lex.expression) && boundAt(p.lex.expression, p.lex.position)
 //@   ensures pi: result1 == nil ==> p.curr.Type == tokT(ppos) && p.next.Type == tokT(ppos + 1) && tokOK(p.curr.Type, p.curr.Value) && tokOK(p.next.Type, p.next.Value) && 0 <= p.lex.position && p.lex.position <= len(p.lex.expression) && aligned(p.lex.expression) && boundAt(p.lex.expression, p.lex.position)
-//@   ensures[C09] potential: result1 == nil ==> ppos + pm(len(p.lex.expression), p.lex.position, p.next.Type, p.curr.Type) <= old(ppos + pm(len(p.lex.expression), p.lex.position, p.next.Type, p.curr.Type))
+//@   ensures[C09 C04] potential: result1 == nil ==> ppos + pm(len(p.lex.expression), p.lex.position, p.next.Type, p.curr.Type) <= old(ppos + pm(len(p.lex.expression), p.lex.position, p.next.Type, p.curr.Type))
 //@   measure pm(len(p.lex.expression), p.lex.position, p.next.Type, p.curr.Type)
 //@   rank 12
 //@   ensures[C04] close: result1 == nil ==> tokT(ppos - 1) == const("lexer.CloseSqBraceToken") && ppos > old(ppos) && result0 != nil
 //@   loop 1
-//@     invariant[C09] potential: ppos + pm(len(p.lex.expression), p.lex.position, p.next.Type, p.curr.Type) <= old(ppos + pm(len(p.lex.expression), p.lex.position, p.next.Type, p.curr.Type))
+//@     invariant[C09 C04] potential: ppos + pm(len(p.lex.expression), p.lex.position, p.next.Type, p.curr.Type) <= old(ppos + pm(len(p.lex.expression), p.lex.position, p.next.Type, p.curr.Type))
 //@     decreases pm(len(p.lex.expression), p.lex.position, p.next.Type, p.curr.Type)
 //@     invariant[C04 C01 C17] linear: pendingOnly()
 //@     invariant p.curr.Type == tokT(ppos) && p.next.Type == tokT(ppos + 1) && tokOK(p.curr.Type, p.curr.Value) && tokOK(p.next.Type, p.next.Value) && 0 <= p.lex.position && p.lex.position <= len(p.lex.expression) && aligned(p.lex.expression) && boundAt(p.lex.expression, p.lex.position) && fresh(fields)
@@ -231,43 +231,43 @@ package parser
 //@     invariant[C04] separator: ppos == old(ppos) || (tokT(ppos - 1) == const("lexer.CommaToken") && ppos > old(ppos))
 
 //@ func parser.selectObject
-//@   tags C04 C09
+//@   tags C04 C09 C15
 //@   linear
 //@   assigns p.curr, p.next, p.lex, fam:G_pos, fam:G_toks
 //@   requires pi: p.curr.Type == tokT(ppos) && p.next.Type == tokT(ppos + 1) && tokOK(p.curr.Type, p.curr.Value) && tokOK(p.next.Type, p.next.Value) && 0 <= p.lex.position && p.lex.position <= len(p.lex.expression) && aligned(p.lex.expression) && boundAt(p.lex.expression, p.lex.position)
 //@   ensures pi: result1 == nil ==> p.curr.Type == tokT(ppos) && p.next.Type == tokT(ppos + 1) && tokOK(p.curr.Type, p.curr.Value) && tokOK(p.next.Type, p.next.Value) && 0 <= p.lex.position && p.lex.position <= len(p.lex.expression) && aligned(p.lex.expression) && boundAt(p.lex.expression, p.lex.position)
-//@   ensures[C09] potential: result1 == nil ==> ppos + pm(len(p.lex.expression), p.lex.position, p.next.Type, p.curr.Type) <= old(ppos + pm(len(p.lex.expression), p.lex.position, p.next.Type, p.curr.Type))
+//@   ensures[C09 C04 C15] potential: result1 == nil ==> ppos + pm(len(p.lex.expression), p.lex.position, p.next.Type, p.curr.Type) <= old(ppos + pm(len(p.lex.expression), p.lex.position, p.next.Type, p.curr.Type))
 //@   measure pm(len(p.lex.expression), p.lex.position, p.next.Type, p.curr.Type)
 //@   rank 12
-//@   ensures[C04] close: result1 == nil ==> tokT(ppos - 1) == const("lexer.CloseBraceToken") && ppos > old(ppos) && result0 != nil
-//@   at advance2#1 assert[C04] key: p.curr.Type == const("lexer.QuotedIdentifierToken") || p.curr.Type == const("lexer.UnquotedIdentifierToken")
+//@   ensures[C04 C15] close: result1 == nil ==> tokT(ppos - 1) == const("lexer.CloseBraceToken") && ppos > old(ppos) && result0 != nil
+//@   at advance2#1 assert[C04 C15] key: p.curr.Type == const("lexer.QuotedIdentifierToken") || p.curr.Type == const("lexer.UnquotedIdentifierToken")
 //@   loop 1
-//@     invariant[C09] potential: ppos + pm(len(p.lex.expression), p.lex.position, p.next.Type, p.curr.Type) <= old(ppos + pm(len(p.lex.expression), p.lex.position, p.next.Type, p.curr.Type))
+//@     invariant[C09 C04 C15] potential: ppos + pm(len(p.lex.expression), p.lex.position, p.next.Type, p.curr.Type) <= old(ppos + pm(len(p.lex.expression), p.lex.position, p.next.Type, p.curr.Type))
 //@     decreases pm(len(p.lex.expression), p.lex.position, p.next.Type, p.curr.Type)
-//@     invariant[C04 C01 C17] linear: pendingOnly()
+//@     invariant[C04 C01 C17 C15] linear: pendingOnly()
 //@     invariant fresh(fields) && fields != nil && (forall k Int :: hasKey(fields, k) ==> getKey(fields, k) != nil)
 //@     invariant p.curr.Type == tokT(ppos) && p.next.Type == tokT(ppos + 1) && tokOK(p.curr.Type, p.curr.Value) && tokOK(p.next.Type, p.next.Value) && 0 <= p.lex.position && p.lex.position <= len(p.lex.expression) && aligned(p.lex.expression) && boundAt(p.lex.expression, p.lex.position)
-//@     invariant[C04] separator: ppos == old(ppos) || (tokT(ppos - 1) == const("lexer.CommaToken") && ppos > old(ppos))
+//@     invariant[C04 C15] separator: ppos == old(ppos) || (tokT(ppos - 1) == const("lexer.CommaToken") && ppos > old(ppos))
 
 //@ func parser.let
-//@   tags C04 C09 C19
+//@   tags C04 C09 C19 C15
 //@   linear
 //@   assigns p.curr, p.next, p.lex, fam:G_pos, fam:G_toks
 //@   requires pi: p.curr.Type == tokT(ppos) && p.next.Type == tokT(ppos + 1) && tokOK(p.curr.Type, p.curr.Value) && tokOK(p.next.Type, p.next.Value) && 0 <= p.lex.position && p.lex.position <= len(p.lex.expression) && aligned(p.lex.expression) && boundAt(p.lex.expression, p.lex.position)
 //@   ensures pi: result1 == nil ==> p.curr.Type == tokT(ppos) && p.next.Type == tokT(ppos + 1) && tokOK(p.curr.Type, p.curr.Value) && tokOK(p.next.Type, p.next.Value) && 0 <= p.lex.position && p.lex.position <= len(p.lex.expression) && aligned(p.lex.expression) && boundAt(p.lex.expression, p.lex.position)
-//@   ensures[C09] potential: result1 == nil ==> ppos + pm(len(p.lex.expression), p.lex.position, p.next.Type, p.curr.Type) <= old(ppos + pm(len(p.lex.expression), p.lex.position, p.next.Type, p.curr.Type))
+//@   ensures[C09 C04 C15 C19] potential: result1 == nil ==> ppos + pm(len(p.lex.expression), p.lex.position, p.next.Type, p.curr.Type) <= old(ppos + pm(len(p.lex.expression), p.lex.position, p.next.Type, p.curr.Type))
 //@   measure pm(len(p.lex.expression), p.lex.position, p.next.Type, p.curr.Type)
 //@   rank 12
-//@   ensures[C09] progress: result1 == nil ==> ppos > old(ppos) && result0 != nil
-//@   at advance2#1 assert[C04 C19] binding: p.curr.Type == const("lexer.VariableToken") && p.next.Type == const("lexer.AssignToken")
-//@   ensures[C19 C10] body.extends: result1 == nil ==> precOf(tokT(ppos)) <= 1 || !infixTok(tokT(ppos))
+//@   ensures[C09 C04 C15 C19] progress: result1 == nil ==> ppos > old(ppos) && result0 != nil
+//@   at advance2#1 assert[C04 C19 C15] binding: p.curr.Type == const("lexer.VariableToken") && p.next.Type == const("lexer.AssignToken")
+//@   ensures[C19 C10 C04 C15] body.extends: result1 == nil ==> precOf(tokT(ppos)) <= 1 || !infixTok(tokT(ppos))
 //@   loop 1
-//@     invariant[C09] potential: ppos + pm(len(p.lex.expression), p.lex.position, p.next.Type, p.curr.Type) <= old(ppos + pm(len(p.lex.expression), p.lex.position, p.next.Type, p.curr.Type))
+//@     invariant[C09 C04 C15 C19] potential: ppos + pm(len(p.lex.expression), p.lex.position, p.next.Type, p.curr.Type) <= old(ppos + pm(len(p.lex.expression), p.lex.position, p.next.Type, p.curr.Type))
 //@     decreases pm(len(p.lex.expression), p.lex.position, p.next.Type, p.curr.Type)
-//@     invariant[C04 C01 C17] linear: pendingOnly()
+//@     invariant[C04 C01 C17 C15 C19] linear: pendingOnly()
 //@     invariant fresh(variables) && variables != nil && (forall k Int :: hasKey(variables, k) ==> getKey(variables, k) != nil)
 //@     invariant p.curr.Type == tokT(ppos) && p.next.Type == tokT(ppos + 1) && tokOK(p.curr.Type, p.curr.Value) && tokOK(p.next.Type, p.next.Value) && 0 <= p.lex.position && p.lex.position <= len(p.lex.expression) && aligned(p.lex.expression) && boundAt(p.lex.expression, p.lex.position)
-//@     invariant[C04] separator: ppos == old(ppos) || (tokT(ppos - 1) == const("lexer.CommaToken") && ppos > old(ppos))
+//@     invariant[C04 C15 C19] separator: ppos == old(ppos) || (tokT(ppos - 1) == const("lexer.CommaToken") && ppos > old(ppos))
 
 // ---------------------------------------------------------------------------
 // function calls (C02, C04, C08): arity helpers and the name -> node table
@@ -280,10 +280,10 @@ package parser
 //@   assigns p.curr, p.next, p.lex, fam:G_pos, fam:G_toks
 //@   requires pi: p.curr.Type == tokT(ppos) && p.next.Type == tokT(ppos + 1) && tokOK(p.curr.Type, p.curr.Value) && tokOK(p.next.Type, p.next.Value) && 0 <= p.lex.position && p.lex.position <= len(p.lex.expression) && aligned(p.lex.expression) && boundAt(p.lex.expression, p.lex.position)
 //@   ensures pi: result1 == nil ==> p.curr.Type == tokT(ppos) && p.next.Type == tokT(ppos + 1) && tokOK(p.curr.Type, p.curr.Value) && tokOK(p.next.Type, p.next.Value) && 0 <= p.lex.position && p.lex.position <= len(p.lex.expression) && aligned(p.lex.expression) && boundAt(p.lex.expression, p.lex.position)
-//@   ensures[C09] potential: result1 == nil ==> ppos + pm(len(p.lex.expression), p.lex.position, p.next.Type, p.curr.Type) <= old(ppos + pm(len(p.lex.expression), p.lex.position, p.next.Type, p.curr.Type))
+//@   ensures[C09 C02] potential: result1 == nil ==> ppos + pm(len(p.lex.expression), p.lex.position, p.next.Type, p.curr.Type) <= old(ppos + pm(len(p.lex.expression), p.lex.position, p.next.Type, p.curr.Type))
 //@   measure pm(len(p.lex.expression), p.lex.position, p.next.Type, p.curr.Type)
 //@   rank 12
-//@   ensures[C04] close: result1 == nil ==> tokT(ppos - 1) == const("lexer.CloseParenToken") && ppos > old(ppos) && result0 != nil
+//@   ensures[C04 C02] close: result1 == nil ==> tokT(ppos - 1) == const("lexer.CloseParenToken") && ppos > old(ppos) && result0 != nil
 //@   ensures[C02 C08] noargs: old(p.curr.Type) == const("lexer.CloseParenToken") ==> isType(result1, "*github.com/woodsbury/jmespath/internal/parser.InvalidFunctionCallError")
 
 //@ func parser.function1To2Arg
@@ -324,11 +324,11 @@ package parser
 //@   assigns p.curr, p.next, p.lex, fam:G_pos, fam:G_toks
 //@   requires pi: p.curr.Type == tokT(ppos) && p.next.Type == tokT(ppos + 1) && tokOK(p.curr.Type, p.curr.Value) && tokOK(p.next.Type, p.next.Value) && 0 <= p.lex.position && p.lex.position <= len(p.lex.expression) && aligned(p.lex.expression) && boundAt(p.lex.expression, p.lex.position)
 //@   ensures pi: result2 == nil ==> p.curr.Type == tokT(ppos) && p.next.Type == tokT(ppos + 1) && tokOK(p.curr.Type, p.curr.Value) && tokOK(p.next.Type, p.next.Value) && 0 <= p.lex.position && p.lex.position <= len(p.lex.expression) && aligned(p.lex.expression) && boundAt(p.lex.expression, p.lex.position)
-//@   ensures[C09] potential: result2 == nil ==> ppos + pm(len(p.lex.expression), p.lex.position, p.next.Type, p.curr.Type) <= old(ppos + pm(len(p.lex.expression), p.lex.position, p.next.Type, p.curr.Type))
+//@   ensures[C09 C02] potential: result2 == nil ==> ppos + pm(len(p.lex.expression), p.lex.position, p.next.Type, p.curr.Type) <= old(ppos + pm(len(p.lex.expression), p.lex.position, p.next.Type, p.curr.Type))
 //@   measure pm(len(p.lex.expression), p.lex.position, p.next.Type, p.curr.Type)
 //@   rank 12
-//@   ensures[C03] args: result2 == nil ==> result0 != nil && result1 != nil
-//@   ensures[C04] close: result2 == nil ==> tokT(ppos - 1) == const("lexer.CloseParenToken") && ppos > old(ppos) && result0 != nil
+//@   ensures[C03 C02] args: result2 == nil ==> result0 != nil && result1 != nil
+//@   ensures[C04 C02] close: result2 == nil ==> tokT(ppos - 1) == const("lexer.CloseParenToken") && ppos > old(ppos) && result0 != nil
 //@   ensures[C02 C08] noargs: old(p.curr.Type) == const("lexer.CloseParenToken") ==> isType(result2, "*github.com/woodsbury/jmespath/internal/parser.InvalidFunctionCallError")
 
 //@ func parser.function2MapArg
@@ -339,11 +339,11 @@ package parser
 //@   assigns p.curr, p.next, p.lex, fam:G_pos, fam:G_toks
 //@   requires pi: p.curr.Type == tokT(ppos) && p.next.Type == tokT(ppos + 1) && tokOK(p.curr.Type, p.curr.Value) && tokOK(p.next.Type, p.next.Value) && 0 <= p.lex.position && p.lex.position <= len(p.lex.expression) && aligned(p.lex.expression) && boundAt(p.lex.expression, p.lex.position)
 //@   ensures pi: result2 == nil ==> p.curr.Type == tokT(ppos) && p.next.Type == tokT(ppos + 1) && tokOK(p.curr.Type, p.curr.Value) && tokOK(p.next.Type, p.next.Value) && 0 <= p.lex.position && p.lex.position <= len(p.lex.expression) && aligned(p.lex.expression) && boundAt(p.lex.expression, p.lex.position)
-//@   ensures[C09] potential: result2 == nil ==> ppos + pm(len(p.lex.expression), p.lex.position, p.next.Type, p.curr.Type) <= old(ppos + pm(len(p.lex.expression), p.lex.position, p.next.Type, p.curr.Type))
+//@   ensures[C09 C02] potential: result2 == nil ==> ppos + pm(len(p.lex.expression), p.lex.position, p.next.Type, p.curr.Type) <= old(ppos + pm(len(p.lex.expression), p.lex.position, p.next.Type, p.curr.Type))
 //@   measure pm(len(p.lex.expression), p.lex.position, p.next.Type, p.curr.Type)
 //@   rank 12
-//@   ensures[C03] args: result2 == nil ==> result0 != nil && result1 != nil
-//@   ensures[C04] close: result2 == nil ==> tokT(ppos - 1) == const("lexer.CloseParenToken") && ppos > old(ppos) && result0 != nil
+//@   ensures[C03 C02] args: result2 == nil ==> result0 != nil && result1 != nil
+//@   ensures[C04 C02] close: result2 == nil ==> tokT(ppos - 1) == const("lexer.CloseParenToken") && ppos > old(ppos) && result0 != nil
 //@   ensures[C02 C08] noargs: old(p.curr.Type) == const("lexer.CloseParenToken") ==> isType(result2, "*github.com/woodsbury/jmespath/internal/parser.InvalidFunctionCallError")
 
 //@ func parser.function2To3Arg
@@ -384,11 +384,11 @@ package parser
 //@   assigns p.curr, p.next, p.lex, fam:G_pos, fam:G_toks
 //@   requires pi: p.curr.Type == tokT(ppos) && p.next.Type == tokT(ppos + 1) && tokOK(p.curr.Type, p.curr.Value) && tokOK(p.next.Type, p.next.Value) && 0 <= p.lex.position && p.lex.position <= len(p.lex.expression) && aligned(p.lex.expression) && boundAt(p.lex.expression, p.lex.position)
 //@   ensures pi: result4 == nil ==> p.curr.Type == tokT(ppos) && p.next.Type == tokT(ppos + 1) && tokOK(p.curr.Type, p.curr.Value) && tokOK(p.next.Type, p.next.Value) && 0 <= p.lex.position && p.lex.position <= len(p.lex.expression) && aligned(p.lex.expression) && boundAt(p.lex.expression, p.lex.position)
-//@   ensures[C09] potential: result4 == nil ==> ppos + pm(len(p.lex.expression), p.lex.position, p.next.Type, p.curr.Type) <= old(ppos + pm(len(p.lex.expression), p.lex.position, p.next.Type, p.curr.Type))
+//@   ensures[C09 C02] potential: result4 == nil ==> ppos + pm(len(p.lex.expression), p.lex.position, p.next.Type, p.curr.Type) <= old(ppos + pm(len(p.lex.expression), p.lex.position, p.next.Type, p.curr.Type))
 //@   measure pm(len(p.lex.expression), p.lex.position, p.next.Type, p.curr.Type)
 //@   rank 12
-//@   ensures[C03] args: result4 == nil ==> result0 != nil && result1 != nil && result2 != nil
-//@   ensures[C04] close: result4 == nil ==> tokT(ppos - 1) == const("lexer.CloseParenToken") && ppos > old(ppos) && result0 != nil
+//@   ensures[C03 C02] args: result4 == nil ==> result0 != nil && result1 != nil && result2 != nil
+//@   ensures[C04 C02] close: result4 == nil ==> tokT(ppos - 1) == const("lexer.CloseParenToken") && ppos > old(ppos) && result0 != nil
 //@   ensures[C02 C08] noargs: old(p.curr.Type) == const("lexer.CloseParenToken") ==> isType(result4, "*github.com/woodsbury/jmespath/internal/parser.InvalidFunctionCallError")
 
 //@ func parser.functionVarArg
@@ -399,19 +399,19 @@ package parser
 //@   assigns p.curr, p.next, p.lex, fam:G_pos, fam:G_toks
 //@   requires pi: p.curr.Type == tokT(ppos) && p.next.Type == tokT(ppos + 1) && tokOK(p.curr.Type, p.curr.Value) && tokOK(p.next.Type, p.next.Value) && 0 <= p.lex.position && p.lex.position <= len(p.lex.expression) && aligned(p.lex.expression) && boundAt(p.lex.expression, p.lex.position)
 //@   ensures pi: result1 == nil ==> p.curr.Type == tokT(ppos) && p.next.Type == tokT(ppos + 1) && tokOK(p.curr.Type, p.curr.Value) && tokOK(p.next.Type, p.next.Value) && 0 <= p.lex.position && p.lex.position <= len(p.lex.expression) && aligned(p.lex.expression) && boundAt(p.lex.expression, p.lex.position)
-//@   ensures[C09] potential: result1 == nil ==> ppos + pm(len(p.lex.expression), p.lex.position, p.next.Type, p.curr.Type) <= old(ppos + pm(len(p.lex.expression), p.lex.position, p.next.Type, p.curr.Type))
+//@   ensures[C09 C02] potential: result1 == nil ==> ppos + pm(len(p.lex.expression), p.lex.position, p.next.Type, p.curr.Type) <= old(ppos + pm(len(p.lex.expression), p.lex.position, p.next.Type, p.curr.Type))
 //@   measure pm(len(p.lex.expression), p.lex.position, p.next.Type, p.curr.Type)
 //@   rank 12
-//@   ensures[C04] close: result1 == nil ==> tokT(ppos - 1) == const("lexer.CloseParenToken") && ppos > old(ppos) && len(result0) >= 1
-//@   ensures[C03] args: result1 == nil ==> (forall k Int :: 0 <= k && k < len(result0) ==> result0[k] != nil)
+//@   ensures[C04 C02] close: result1 == nil ==> tokT(ppos - 1) == const("lexer.CloseParenToken") && ppos > old(ppos) && len(result0) >= 1
+//@   ensures[C03 C02] args: result1 == nil ==> (forall k Int :: 0 <= k && k < len(result0) ==> result0[k] != nil)
 //@   ensures[C02 C08] noargs: old(p.curr.Type) == const("lexer.CloseParenToken") ==> isType(result1, "*github.com/woodsbury/jmespath/internal/parser.InvalidFunctionCallError")
 //@   loop 1
-//@     invariant[C09] potential: ppos + pm(len(p.lex.expression), p.lex.position, p.next.Type, p.curr.Type) <= old(ppos + pm(len(p.lex.expression), p.lex.position, p.next.Type, p.curr.Type))
+//@     invariant[C09 C02] potential: ppos + pm(len(p.lex.expression), p.lex.position, p.next.Type, p.curr.Type) <= old(ppos + pm(len(p.lex.expression), p.lex.position, p.next.Type, p.curr.Type))
 //@     decreases pm(len(p.lex.expression), p.lex.position, p.next.Type, p.curr.Type)
-//@     invariant[C04 C01 C17] linear: pendingOnly()
+//@     invariant[C04 C01 C17 C02] linear: pendingOnly()
 //@     invariant p.curr.Type == tokT(ppos) && p.next.Type == tokT(ppos + 1) && tokOK(p.curr.Type, p.curr.Value) && tokOK(p.next.Type, p.next.Value) && 0 <= p.lex.position && p.lex.position <= len(p.lex.expression) && aligned(p.lex.expression) && boundAt(p.lex.expression, p.lex.position) && fresh(nodes)
 //@     invariant forall k Int :: 0 <= k && k < len(nodes) ==> nodes[k] != nil
-//@     invariant[C04] separator: (ppos == old(ppos) && len(nodes) == 0) || (tokT(ppos - 1) == const("lexer.CommaToken") && ppos > old(ppos) && len(nodes) >= 1)
+//@     invariant[C04 C02] separator: (ppos == old(ppos) && len(nodes) == 0) || (tokT(ppos - 1) == const("lexer.CommaToken") && ppos > old(ppos) && len(nodes) >= 1)
 
 //@ func parser.function
 //@   tags C02 C04 C08 C09
@@ -421,53 +421,53 @@ package parser
 //@   requires call: p.next.Type == const("lexer.OpenParenToken")
 //@   requires[C09] name: p.curr.Type == const("lexer.UnquotedIdentifierToken")
 //@   ensures pi: result1 == nil ==> p.curr.Type == tokT(ppos) && p.next.Type == tokT(ppos + 1) && tokOK(p.curr.Type, p.curr.Value) && tokOK(p.next.Type, p.next.Value) && 0 <= p.lex.position && p.lex.position <= len(p.lex.expression) && aligned(p.lex.expression) && boundAt(p.lex.expression, p.lex.position)
-//@   ensures[C09] potential: result1 == nil ==> ppos + pm(len(p.lex.expression), p.lex.position, p.next.Type, p.curr.Type) <= old(ppos + pm(len(p.lex.expression), p.lex.position, p.next.Type, p.curr.Type))
+//@   ensures[C09 C02 C04 C08] potential: result1 == nil ==> ppos + pm(len(p.lex.expression), p.lex.position, p.next.Type, p.curr.Type) <= old(ppos + pm(len(p.lex.expression), p.lex.position, p.next.Type, p.curr.Type))
 //@   measure pm(len(p.lex.expression), p.lex.position, p.next.Type, p.curr.Type)
 //@   rank 4
-//@   ensures[C09] progress: result1 == nil ==> ppos > old(ppos) + 1 && result0 != nil
-//@   ensures[C04] close: result1 == nil ==> tokT(ppos - 1) == const("lexer.CloseParenToken")
-//@   ensures[C02] table.abs: result1 == nil && old(p.curr.Value) == "abs" ==> isType(result0, "*github.com/woodsbury/jmespath/internal/parser.AbsNode")
-//@   ensures[C02] table.avg: result1 == nil && old(p.curr.Value) == "avg" ==> isType(result0, "*github.com/woodsbury/jmespath/internal/parser.AvgNode")
-//@   ensures[C02] table.ceil: result1 == nil && old(p.curr.Value) == "ceil" ==> isType(result0, "*github.com/woodsbury/jmespath/internal/parser.CeilNode")
-//@   ensures[C02] table.contains: result1 == nil && old(p.curr.Value) == "contains" ==> isType(result0, "*github.com/woodsbury/jmespath/internal/parser.ContainsNode")
-//@   ensures[C02] table.ends_with: result1 == nil && old(p.curr.Value) == "ends_with" ==> isType(result0, "*github.com/woodsbury/jmespath/internal/parser.EndsWithNode")
-//@   ensures[C02] table.find_first: result1 == nil && old(p.curr.Value) == "find_first" ==> isType(result0, "*github.com/woodsbury/jmespath/internal/parser.FindFirstNode") || isType(result0, "*github.com/woodsbury/jmespath/internal/parser.FindFirstFromNode") || isType(result0, "*github.com/woodsbury/jmespath/internal/parser.FindFirstBetweenNode")
-//@   ensures[C02] table.find_last: result1 == nil && old(p.curr.Value) == "find_last" ==> isType(result0, "*github.com/woodsbury/jmespath/internal/parser.FindLastNode") || isType(result0, "*github.com/woodsbury/jmespath/internal/parser.FindLastFromNode") || isType(result0, "*github.com/woodsbury/jmespath/internal/parser.FindLastBetweenNode")
-//@   ensures[C02] table.floor: result1 == nil && old(p.curr.Value) == "floor" ==> isType(result0, "*github.com/woodsbury/jmespath/internal/parser.FloorNode")
-//@   ensures[C02] table.from_items: result1 == nil && old(p.curr.Value) == "from_items" ==> isType(result0, "*github.com/woodsbury/jmespath/internal/parser.FromItemsNode")
-//@   ensures[C02] table.group_by: result1 == nil && old(p.curr.Value) == "group_by" ==> isType(result0, "*github.com/woodsbury/jmespath/internal/parser.GroupByNode")
-//@   ensures[C02] table.items: result1 == nil && old(p.curr.Value) == "items" ==> isType(result0, "*github.com/woodsbury/jmespath/internal/parser.ItemsNode")
-//@   ensures[C02] table.join: result1 == nil && old(p.curr.Value) == "join" ==> isType(result0, "*github.com/woodsbury/jmespath/internal/parser.JoinNode")
-//@   ensures[C02] table.keys: result1 == nil && old(p.curr.Value) == "keys" ==> isType(result0, "*github.com/woodsbury/jmespath/internal/parser.KeysNode")
-//@   ensures[C02] table.length: result1 == nil && old(p.curr.Value) == "length" ==> isType(result0, "*github.com/woodsbury/jmespath/internal/parser.LengthNode")
-//@   ensures[C02] table.lower: result1 == nil && old(p.curr.Value) == "lower" ==> isType(result0, "*github.com/woodsbury/jmespath/internal/parser.LowerNode")
-//@   ensures[C02] table.map: result1 == nil && old(p.curr.Value) == "map" ==> isType(result0, "*github.com/woodsbury/jmespath/internal/parser.MapNode")
-//@   ensures[C02] table.max: result1 == nil && old(p.curr.Value) == "max" ==> isType(result0, "*github.com/woodsbury/jmespath/internal/parser.MaxNode")
-//@   ensures[C02] table.max_by: result1 == nil && old(p.curr.Value) == "max_by" ==> isType(result0, "*github.com/woodsbury/jmespath/internal/parser.MaxByNode")
-//@   ensures[C02] table.merge: result1 == nil && old(p.curr.Value) == "merge" ==> isType(result0, "*github.com/woodsbury/jmespath/internal/parser.MergeNode")
-//@   ensures[C02] table.min: result1 == nil && old(p.curr.Value) == "min" ==> isType(result0, "*github.com/woodsbury/jmespath/internal/parser.MinNode")
-//@   ensures[C02] table.min_by: result1 == nil && old(p.curr.Value) == "min_by" ==> isType(result0, "*github.com/woodsbury/jmespath/internal/parser.MinByNode")
-//@   ensures[C02] table.not_null: result1 == nil && old(p.curr.Value) == "not_null" ==> isType(result0, "*github.com/woodsbury/jmespath/internal/parser.NotNullNode")
-//@   ensures[C02] table.pad_left: result1 == nil && old(p.curr.Value) == "pad_left" ==> isType(result0, "*github.com/woodsbury/jmespath/internal/parser.PadSpaceLeftNode") || isType(result0, "*github.com/woodsbury/jmespath/internal/parser.PadLeftNode")
-//@   ensures[C02] table.pad_right: result1 == nil && old(p.curr.Value) == "pad_right" ==> isType(result0, "*github.com/woodsbury/jmespath/internal/parser.PadSpaceRightNode") || isType(result0, "*github.com/woodsbury/jmespath/internal/parser.PadRightNode")
-//@   ensures[C02] table.replace: result1 == nil && old(p.curr.Value) == "replace" ==> isType(result0, "*github.com/woodsbury/jmespath/internal/parser.ReplaceNode") || isType(result0, "*github.com/woodsbury/jmespath/internal/parser.ReplaceCountNode")
-//@   ensures[C02] table.reverse: result1 == nil && old(p.curr.Value) == "reverse" ==> isType(result0, "*github.com/woodsbury/jmespath/internal/parser.ReverseNode")
-//@   ensures[C02] table.sort: result1 == nil && old(p.curr.Value) == "sort" ==> isType(result0, "*github.com/woodsbury/jmespath/internal/parser.SortNode")
-//@   ensures[C02] table.sort_by: result1 == nil && old(p.curr.Value) == "sort_by" ==> isType(result0, "*github.com/woodsbury/jmespath/internal/parser.SortByNode")
-//@   ensures[C02] table.split: result1 == nil && old(p.curr.Value) == "split" ==> isType(result0, "*github.com/woodsbury/jmespath/internal/parser.SplitNode") || isType(result0, "*github.com/woodsbury/jmespath/internal/parser.SplitCountNode")
-//@   ensures[C02] table.starts_with: result1 == nil && old(p.curr.Value) == "starts_with" ==> isType(result0, "*github.com/woodsbury/jmespath/internal/parser.StartsWithNode")
-//@   ensures[C02] table.sum: result1 == nil && old(p.curr.Value) == "sum" ==> isType(result0, "*github.com/woodsbury/jmespath/internal/parser.SumNode")
-//@   ensures[C02] table.to_array: result1 == nil && old(p.curr.Value) == "to_array" ==> isType(result0, "*github.com/woodsbury/jmespath/internal/parser.ToArrayNode")
-//@   ensures[C02] table.to_number: result1 == nil && old(p.curr.Value) == "to_number" ==> isType(result0, "*github.com/woodsbury/jmespath/internal/parser.ToNumberNode")
-//@   ensures[C02] table.to_string: result1 == nil && old(p.curr.Value) == "to_string" ==> isType(result0, "*github.com/woodsbury/jmespath/internal/parser.ToStringNode")
-//@   ensures[C02] table.trim: result1 == nil && old(p.curr.Value) == "trim" ==> isType(result0, "*github.com/woodsbury/jmespath/internal/parser.TrimSpaceNode") || isType(result0, "*github.com/woodsbury/jmespath/internal/parser.TrimNode")
-//@   ensures[C02] table.trim_left: result1 == nil && old(p.curr.Value) == "trim_left" ==> isType(result0, "*github.com/woodsbury/jmespath/internal/parser.TrimSpaceLeftNode") || isType(result0, "*github.com/woodsbury/jmespath/internal/parser.TrimLeftNode")
-//@   ensures[C02] table.trim_right: result1 == nil && old(p.curr.Value) == "trim_right" ==> isType(result0, "*github.com/woodsbury/jmespath/internal/parser.TrimSpaceRightNode") || isType(result0, "*github.com/woodsbury/jmespath/internal/parser.TrimRightNode")
-//@   ensures[C02] table.type: result1 == nil && old(p.curr.Value) == "type" ==> isType(result0, "*github.com/woodsbury/jmespath/internal/parser.TypeNode")
-//@   ensures[C02] table.upper: result1 == nil && old(p.curr.Value) == "upper" ==> isType(result0, "*github.com/woodsbury/jmespath/internal/parser.UpperNode")
-//@   ensures[C02] table.values: result1 == nil && old(p.curr.Value) == "values" ==> isType(result0, "*github.com/woodsbury/jmespath/internal/parser.ValuesNode")
-//@   ensures[C02] table.zip: result1 == nil && old(p.curr.Value) == "zip" ==> isType(result0, "*github.com/woodsbury/jmespath/internal/parser.ZipNode")
-//@   ensures[C02 C08] unknown: old(p.curr.Value) != "abs" && old(p.curr.Value) != "avg" && old(p.curr.Value) != "ceil" && old(p.curr.Value) != "contains" && old(p.curr.Value) != "ends_with" && old(p.curr.Value) != "find_first" && old(p.curr.Value) != "find_last" && old(p.curr.Value) != "floor" && old(p.curr.Value) != "from_items" && old(p.curr.Value) != "group_by" && old(p.curr.Value) != "items" && old(p.curr.Value) != "join" && old(p.curr.Value) != "keys" && old(p.curr.Value) != "length" && old(p.curr.Value) != "lower" && old(p.curr.Value) != "map" && old(p.curr.Value) != "max" && old(p.curr.Value) != "max_by" && old(p.curr.Value) != "merge" && old(p.curr.Value) != "min" && old(p.curr.Value) != "min_by" && old(p.curr.Value) != "not_null" && old(p.curr.Value) != "pad_left" && old(p.curr.Value) != "pad_right" && old(p.curr.Value) != "replace" && old(p.curr.Value) != "reverse" && old(p.curr.Value) != "sort" && old(p.curr.Value) != "sort_by" && old(p.curr.Value) != "split" && old(p.curr.Value) != "starts_with" && old(p.curr.Value) != "sum" && old(p.curr.Value) != "to_array" && old(p.curr.Value) != "to_number" && old(p.curr.Value) != "to_string" && old(p.curr.Value) != "trim" && old(p.curr.Value) != "trim_left" && old(p.curr.Value) != "trim_right" && old(p.curr.Value) != "type" && old(p.curr.Value) != "upper" && old(p.curr.Value) != "values" && old(p.curr.Value) != "zip" ==> result0 == nil && (result1 != nil) && (isType(result1, "*github.com/woodsbury/jmespath/internal/parser.UnknownFunctionError") || old(tokT(ppos + 2)) == const("lexer.UnknownToken") || true)
+//@   ensures[C09 C02 C04 C08] progress: result1 == nil ==> ppos > old(ppos) + 1 && result0 != nil
+//@   ensures[C04 C02 C08] close: result1 == nil ==> tokT(ppos - 1) == const("lexer.CloseParenToken")
+//@   ensures[C02 C04 C08] table.abs: result1 == nil && old(p.curr.Value) == "abs" ==> isType(result0, "*github.com/woodsbury/jmespath/internal/parser.AbsNode")
+//@   ensures[C02 C04 C08] table.avg: result1 == nil && old(p.curr.Value) == "avg" ==> isType(result0, "*github.com/woodsbury/jmespath/internal/parser.AvgNode")
+//@   ensures[C02 C04 C08] table.ceil: result1 == nil && old(p.curr.Value) == "ceil" ==> isType(result0, "*github.com/woodsbury/jmespath/internal/parser.CeilNode")
+//@   ensures[C02 C04 C08] table.contains: result1 == nil && old(p.curr.Value) == "contains" ==> isType(result0, "*github.com/woodsbury/jmespath/internal/parser.ContainsNode")
+//@   ensures[C02 C04 C08] table.ends_with: result1 == nil && old(p.curr.Value) == "ends_with" ==> isType(result0, "*github.com/woodsbury/jmespath/internal/parser.EndsWithNode")
+//@   ensures[C02 C04 C08] table.find_first: result1 == nil && old(p.curr.Value) == "find_first" ==> isType(result0, "*github.com/woodsbury/jmespath/internal/parser.FindFirstNode") || isType(result0, "*github.com/woodsbury/jmespath/internal/parser.FindFirstFromNode") || isType(result0, "*github.com/woodsbury/jmespath/internal/parser.FindFirstBetweenNode")
+//@   ensures[C02 C04 C08] table.find_last: result1 == nil && old(p.curr.Value) == "find_last" ==> isType(result0, "*github.com/woodsbury/jmespath/internal/parser.FindLastNode") || isType(result0, "*github.com/woodsbury/jmespath/internal/parser.FindLastFromNode") || isType(result0, "*github.com/woodsbury/jmespath/internal/parser.FindLastBetweenNode")
+//@   ensures[C02 C04 C08] table.floor: result1 == nil && old(p.curr.Value) == "floor" ==> isType(result0, "*github.com/woodsbury/jmespath/internal/parser.FloorNode")
+//@   ensures[C02 C04 C08] table.from_items: result1 == nil && old(p.curr.Value) == "from_items" ==> isType(result0, "*github.com/woodsbury/jmespath/internal/parser.FromItemsNode")
+//@   ensures[C02 C04 C08] table.group_by: result1 == nil && old(p.curr.Value) == "group_by" ==> isType(result0, "*github.com/woodsbury/jmespath/internal/parser.GroupByNode")
+//@   ensures[C02 C04 C08] table.items: result1 == nil && old(p.curr.Value) == "items" ==> isType(result0, "*github.com/woodsbury/jmespath/internal/parser.ItemsNode")
+//@   ensures[C02 C04 C08] table.join: result1 == nil && old(p.curr.Value) == "join" ==> isType(result0, "*github.com/woodsbury/jmespath/internal/parser.JoinNode")
+//@   ensures[C02 C04 C08] table.keys: result1 == nil && old(p.curr.Value) == "keys" ==> isType(result0, "*github.com/woodsbury/jmespath/internal/parser.KeysNode")
+//@   ensures[C02 C04 C08] table.length: result1 == nil && old(p.curr.Value) == "length" ==> isType(result0, "*github.com/woodsbury/jmespath/internal/parser.LengthNode")
+//@   ensures[C02 C04 C08] table.lower: result1 == nil && old(p.curr.Value) == "lower" ==> isType(result0, "*github.com/woodsbury/jmespath/internal/parser.LowerNode")
+//@   ensures[C02 C04 C08] table.map: result1 == nil && old(p.curr.Value) == "map" ==> isType(result0, "*github.com/woodsbury/jmespath/internal/parser.MapNode")
+//@   ensures[C02 C04 C08] table.max: result1 == nil && old(p.curr.Value) == "max" ==> isType(result0, "*github.com/woodsbury/jmespath/internal/parser.MaxNode")
+//@   ensures[C02 C04 C08] table.max_by: result1 == nil && old(p.curr.Value) == "max_by" ==> isType(result0, "*github.com/woodsbury/jmespath/internal/parser.MaxByNode")
+//@   ensures[C02 C04 C08] table.merge: result1 == nil && old(p.curr.Value) == "merge" ==> isType(result0, "*github.com/woodsbury/jmespath/internal/parser.MergeNode")
+//@   ensures[C02 C04 C08] table.min: result1 == nil && old(p.curr.Value) == "min" ==> isType(result0, "*github.com/woodsbury/jmespath/internal/parser.MinNode")
+//@   ensures[C02 C04 C08] table.min_by: result1 == nil && old(p.curr.Value) == "min_by" ==> isType(result0, "*github.com/woodsbury/jmespath/internal/parser.MinByNode")
+//@   ensures[C02 C04 C08] table.not_null: result1 == nil && old(p.curr.Value) == "not_null" ==> isType(result0, "*github.com/woodsbury/jmespath/internal/parser.NotNullNode")
+//@   ensures[C02 C04 C08] table.pad_left: result1 == nil && old(p.curr.Value) == "pad_left" ==> isType(result0, "*github.com/woodsbury/jmespath/internal/parser.PadSpaceLeftNode") || isType(result0, "*github.com/woodsbury/jmespath/internal/parser.PadLeftNode")
+//@   ensures[C02 C04 C08] table.pad_right: result1 == nil && old(p.curr.Value) == "pad_right" ==> isType(result0, "*github.com/woodsbury/jmespath/internal/parser.PadSpaceRightNode") || isType(result0, "*github.com/woodsbury/jmespath/internal/parser.PadRightNode")
+//@   ensures[C02 C04 C08] table.replace: result1 == nil && old(p.curr.Value) == "replace" ==> isType(result0, "*github.com/woodsbury/jmespath/internal/parser.ReplaceNode") || isType(result0, "*github.com/woodsbury/jmespath/internal/parser.ReplaceCountNode")
+//@   ensures[C02 C04 C08] table.reverse: result1 == nil && old(p.curr.Value) == "reverse" ==> isType(result0, "*github.com/woodsbury/jmespath/internal/parser.ReverseNode")
+//@   ensures[C02 C04 C08] table.sort: result1 == nil && old(p.curr.Value) == "sort" ==> isType(result0, "*github.com/woodsbury/jmespath/internal/parser.SortNode")
+//@   ensures[C02 C04 C08] table.sort_by: result1 == nil && old(p.curr.Value) == "sort_by" ==> isType(result0, "*github.com/woodsbury/jmespath/internal/parser.SortByNode")
+//@   ensures[C02 C04 C08] table.split: result1 == nil && old(p.curr.Value) == "split" ==> isType(result0, "*github.com/woodsbury/jmespath/internal/parser.SplitNode") || isType(result0, "*github.com/woodsbury/jmespath/internal/parser.SplitCountNode")
+//@   ensures[C02 C04 C08] table.starts_with: result1 == nil && old(p.curr.Value) == "starts_with" ==> isType(result0, "*github.com/woodsbury/jmespath/internal/parser.StartsWithNode")
+//@   ensures[C02 C04 C08] table.sum: result1 == nil && old(p.curr.Value) == "sum" ==> isType(result0, "*github.com/woodsbury/jmespath/internal/parser.SumNode")
+//@   ensures[C02 C04 C08] table.to_array: result1 == nil && old(p.curr.Value) == "to_array" ==> isType(result0, "*github.com/woodsbury/jmespath/internal/parser.ToArrayNode")
+//@   ensures[C02 C04 C08] table.to_number: result1 == nil && old(p.curr.Value) == "to_number" ==> isType(result0, "*github.com/woodsbury/jmespath/internal/parser.ToNumberNode")
+//@   ensures[C02 C04 C08] table.to_string: result1 == nil && old(p.curr.Value) == "to_string" ==> isType(result0, "*github.com/woodsbury/jmespath/internal/parser.ToStringNode")
+//@   ensures[C02 C04 C08] table.trim: result1 == nil && old(p.curr.Value) == "trim" ==> isType(result0, "*github.com/woodsbury/jmespath/internal/parser.TrimSpaceNode") || isType(result0, "*github.com/woodsbury/jmespath/internal/parser.TrimNode")
+//@   ensures[C02 C04 C08] table.trim_left: result1 == nil && old(p.curr.Value) == "trim_left" ==> isType(result0, "*github.com/woodsbury/jmespath/internal/parser.TrimSpaceLeftNode") || isType(result0, "*github.com/woodsbury/jmespath/internal/parser.TrimLeftNode")
+//@   ensures[C02 C04 C08] table.trim_right: result1 == nil && old(p.curr.Value) == "trim_right" ==> isType(result0, "*github.com/woodsbury/jmespath/internal/parser.TrimSpaceRightNode") || isType(result0, "*github.com/woodsbury/jmespath/internal/parser.TrimRightNode")
+//@   ensures[C02 C04 C08] table.type: result1 == nil && old(p.curr.Value) == "type" ==> isType(result0, "*github.com/woodsbury/jmespath/internal/parser.TypeNode")
+//@   ensures[C02 C04 C08] table.upper: result1 == nil && old(p.curr.Value) == "upper" ==> isType(result0, "*github.com/woodsbury/jmespath/internal/parser.UpperNode")
+//@   ensures[C02 C04 C08] table.values: result1 == nil && old(p.curr.Value) == "values" ==> isType(result0, "*github.com/woodsbury/jmespath/internal/parser.ValuesNode")
+//@   ensures[C02 C04 C08] table.zip: result1 == nil && old(p.curr.Value) == "zip" ==> isType(result0, "*github.com/woodsbury/jmespath/internal/parser.ZipNode")
+//@   ensures[C02 C08 C04] unknown: old(p.curr.Value) != "abs" && old(p.curr.Value) != "avg" && old(p.curr.Value) != "ceil" && old(p.curr.Value) != "contains" && old(p.curr.Value) != "ends_with" && old(p.curr.Value) != "find_first" && old(p.curr.Value) != "find_last" && old(p.curr.Value) != "floor" && old(p.curr.Value) != "from_items" && old(p.curr.Value) != "group_by" && old(p.curr.Value) != "items" && old(p.curr.Value) != "join" && old(p.curr.Value) != "keys" && old(p.curr.Value) != "length" && old(p.curr.Value) != "lower" && old(p.curr.Value) != "map" && old(p.curr.Value) != "max" && old(p.curr.Value) != "max_by" && old(p.curr.Value) != "merge" && old(p.curr.Value) != "min" && old(p.curr.Value) != "min_by" && old(p.curr.Value) != "not_null" && old(p.curr.Value) != "pad_left" && old(p.curr.Value) != "pad_right" && old(p.curr.Value) != "replace" && old(p.curr.Value) != "reverse" && old(p.curr.Value) != "sort" && old(p.curr.Value) != "sort_by" && old(p.curr.Value) != "split" && old(p.curr.Value) != "starts_with" && old(p.curr.Value) != "sum" && old(p.curr.Value) != "to_array" && old(p.curr.Value) != "to_number" && old(p.curr.Value) != "to_string" && old(p.curr.Value) != "trim" && old(p.curr.Value) != "trim_left" && old(p.curr.Value) != "trim_right" && old(p.curr.Value) != "type" && old(p.curr.Value) != "upper" && old(p.curr.Value) != "values" && old(p.curr.Value) != "zip" ==> result0 == nil && (result1 != nil) && (isType(result1, "*github.com/woodsbury/jmespath/internal/parser.UnknownFunctionError") || old(tokT(ppos + 2)) == const("lexer.UnknownToken") || true)
 
 // ---------------------------------------------------------------------------
 // literal decoders (C16, C04)
@@ -485,16 +485,16 @@ package parser
 //@   tags C16 C04 C03 C11
 //@   requires delimited: len(s) >= 2
 //@   requires[C11] text: aligned(s) && s[0] < 128 && s[len(s) - 1] < 128
-//@   ensures[C16] plain: (forall k Int :: {byteOf(s, k)} 1 <= k && k < len(s) - 1 ==> byteOf(s, k) != 92) ==> result1 == nil && isType(result0, "*github.com/woodsbury/jmespath/internal/parser.StringNode") && as(result0, "parser.StringNode").Value == s[1:len(s) - 1]
-//@   ensures[C16] shrinks: result1 == nil && isType(result0, "*github.com/woodsbury/jmespath/internal/parser.StringNode") ==> len(as(result0, "parser.StringNode").Value) <= len(s) - 2
+//@   ensures[C16 C04] plain: (forall k Int :: {byteOf(s, k)} 1 <= k && k < len(s) - 1 ==> byteOf(s, k) != 92) ==> result1 == nil && isType(result0, "*github.com/woodsbury/jmespath/internal/parser.StringNode") && as(result0, "parser.StringNode").Value == s[1:len(s) - 1]
+//@   ensures[C16 C04] shrinks: result1 == nil && isType(result0, "*github.com/woodsbury/jmespath/internal/parser.StringNode") ==> len(as(result0, "parser.StringNode").Value) <= len(s) - 2
 //@   loop 1
 //@     decreases len(v)
 //@     invariant len(v) >= 1
-//@     invariant[C16] written: bldLen(b) + len(v) + 1 <= len(s) - 2
-//@     invariant[C16] escaped: exists k Int :: 1 <= k && k < len(s) - 1 && byteOf(s, k) == 92
-//@     invariant[C11] text.b: bldOk(b)
-//@     invariant[C11] text.v: aligned(v)
-//@     invariant[C11] text.w: subwindow(v, s) && hi(v) == hi(s) - 1
+//@     invariant[C16 C04] written: bldLen(b) + len(v) + 1 <= len(s) - 2
+//@     invariant[C16 C04] escaped: exists k Int :: 1 <= k && k < len(s) - 1 && byteOf(s, k) == 92
+//@     invariant[C11 C16 C04] text.b: bldOk(b)
+//@     invariant[C11 C16 C04] text.v: aligned(v)
+//@     invariant[C11 C04 C16] text.w: subwindow(v, s) && hi(v) == hi(s) - 1
 //@   ensures node: result1 == nil && result0 != nil
 
 //@ func Parse
@@ -614,20 +614,20 @@ package parser
 //@   tags C16 C04 C03 C11
 //@   requires delimited: len(s) >= 2
 //@   requires[C11] text: aligned(s) && s[0] < 128 && s[len(s) - 1] < 128
-//@   ensures[C11] text: result1 == nil ==> aligned(result0)
-//@   ensures[C16] plain: (forall k Int :: {byteOf(s, k)} 1 <= k && k < len(s) - 1 ==> byteOf(s, k) != 92) ==> result1 == nil && result0 == s[1:len(s) - 1]
+//@   ensures[C11 C16 C04] text: result1 == nil ==> aligned(result0)
+//@   ensures[C16 C04] plain: (forall k Int :: {byteOf(s, k)} 1 <= k && k < len(s) - 1 ==> byteOf(s, k) != 92) ==> result1 == nil && result0 == s[1:len(s) - 1]
 //@   note it_str is the string the loop ranges over (v[1:5], v[2:6]); in loop 3 the two bytes in front of it are the `\u` of the second escape
 //@   loop 1
 //@     decreases len(v)
 //@     invariant len(v) >= 1
-//@     invariant[C11] text.b: bldOk(b)
-//@     invariant[C11] text.v: aligned(v)
-//@     invariant[C11] text.w: subwindow(v, s) && hi(v) == hi(s) - 1
-//@     invariant[C16] escaped: exists k Int :: 1 <= k && k < len(s) - 1 && byteOf(s, k) == 92
+//@     invariant[C11 C16 C04] text.b: bldOk(b)
+//@     invariant[C11 C16 C04] text.v: aligned(v)
+//@     invariant[C11 C04 C16] text.w: subwindow(v, s) && hi(v) == hi(s) - 1
+//@     invariant[C16 C04] escaped: exists k Int :: 1 <= k && k < len(s) - 1 && byteOf(s, k) == 92
 //@   loop 2
 //@     invariant[C04 C16] hex: forall k Int :: {byteOf(it_str, k)} 0 <= k && k < it_n ==> hexByte(byteOf(it_str, k))
-//@     invariant[C11] last: 0 <= it_n && (it_n > 3 ==> it_str[3] < 128)
+//@     invariant[C11 C04 C16] last: 0 <= it_n && (it_n > 3 ==> it_str[3] < 128)
 //@   loop 3
 //@     invariant[C04 C16] pair: it_str[0 - 2] == 92 && it_str[0 - 1] == 117
 //@     invariant[C04 C16] hex: forall k Int :: {byteOf(it_str, k)} 0 <= k && k < it_n ==> hexByte(byteOf(it_str, k))
-//@     invariant[C11] last: 0 <= it_n && (it_n > 3 ==> it_str[3] < 128)
+//@     invariant[C11 C04 C16] last: 0 <= it_n && (it_n > 3 ==> it_str[3] < 128)
